@@ -144,24 +144,32 @@ def watchApplied (node : α → Option FileRec) (disk : α → Option Nat) (s : 
       if r.rescannable ∧ disk p ≠ r.hash then some { path := p, cause := .external, newHash := disk p } else none
     | none => none
 
-/-- `updated` as handed to `process_nglob_changes`: of the paths that were re-hashed, the unchanged
-ones are dropped, and so are the ones that turn out not to exist (they move to `deleted`). -/
-def prunedUpdated (node : α → Option FileRec) (disk : α → Option Nat) (s : Sets α) : List α :=
-  s.updated.filter fun p => match node p with
-    | some r => !r.rescannable || (decide (disk p ≠ r.hash) && (disk p).isSome)
-    | none => true
+/-- Whether `run_once` re-hashes the path: it has a node that a restart would re-hash too. -/
+def rehashed (node : α → Option FileRec) (p : α) : Bool :=
+  match node p with
+  | some r => r.rescannable
+  | none => false
 
-/-- The re-hashed paths of `updated` whose new hash is unknown although the recorded one is not: the
-last item about them was an update, yet they are not there (a write reported through the watch of a
-directory that was renamed meanwhile arrives under the old path). -/
-def vanishedUpdated (node : α → Option FileRec) (disk : α → Option Nat) (s : Sets α) : List α :=
+/-- `updated` as handed to `process_nglob_changes`.  Of the re-hashed paths the unchanged ones are
+dropped and so are the ones whose new hash is unknown; a path that was not re-hashed (a glob match has
+no node of its own) stays only if it exists on disk (`present` = `os.path.lexists`). -/
+def prunedUpdated (node : α → Option FileRec) (disk : α → Option Nat) (present : α → Bool) (s : Sets α) : List α :=
   s.updated.filter fun p => match node p with
-    | some r => r.rescannable && decide (disk p ≠ r.hash) && (disk p).isNone
-    | none => false
+    | some r => if r.rescannable then decide (disk p ≠ r.hash) && (disk p).isSome else present p
+    | none => present p
+
+/-- The paths of `updated` that turn out not to be there: re-hashed with an unknown new hash although
+the recorded one is known, or not re-hashed and absent.  The last item about them was an update (a
+write reported through the watch of a directory that was renamed meanwhile arrives under the old
+path); they count as deletions. -/
+def vanishedUpdated (node : α → Option FileRec) (disk : α → Option Nat) (present : α → Bool) (s : Sets α) : List α :=
+  s.updated.filter fun p => match node p with
+    | some r => if r.rescannable then decide (disk p ≠ r.hash) && (disk p).isNone else !present p
+    | none => !present p
 
 /-- `deleted` as handed to `process_nglob_changes`. -/
-def finalDeleted (node : α → Option FileRec) (disk : α → Option Nat) (s : Sets α) : List α :=
-  s.deleted ++ (vanishedUpdated node disk s).filter (· ∉ s.deleted)
+def finalDeleted (node : α → Option FileRec) (disk : α → Option Nat) (present : α → Bool) (s : Sets α) : List α :=
+  s.deleted ++ (vanishedUpdated node disk present s).filter (· ∉ s.deleted)
 
 /-- `startup.rescan_files`: every attached file that is not PLANNED or VOLATILE is re-hashed, with
 cause CONFIRMED when it is UNCONFIRMED, else EXTERNAL; a result is applied when it differs or when the
